@@ -413,13 +413,35 @@ static void ipf_step()
 #define STEP2X(n) STEP(n, 0, 1) STEP(n, 1, 0)                            // two distinct objects
 #define STEP1(n) STEP(n, 0, 0) STEP(n, 1, 1)                             // operations on one object
 STEP1(0) STEP2(1) STEP2(2) STEP2(3) STEP2(4) STEP1(5) STEP1(6) STEP1(7) STEP1(8) STEP1(9) STEP1(10) STEP2X(11) STEP2X(12) STEP1(13)
-// histories of KSTEPS symbolic operations from two default-constructed wrappers
+// histories of KSTEPS symbolic operations from two default-constructed wrappers a = f[0], b = f[1]. The operation code is
+// symbolic, the objects an operation works on are fixed per code (DESIGN.md C20: assign small / large callable, copy, move,
+// swap, reset, assign other, call), captured states and call arguments symbolic
+#define HOPS 10
 Q q_ipf_hist()
 {
     void* f[2]; M m[2];
     vf_live = 0; vf_corrupt = 0;
     for (int t = 0; t < 2; t++) { f[t] = vf_sym_bytes(k_ipf_sizeof()); k_ipf_default(f[t]); m[t] = M{0, 0}; }
-    for (int k = 0; k < KSTEPS; k++) do_step<-1>(f, m, draw_step(-1));
+    for (int k = 0; k < KSTEPS; k++) {
+        unsigned op = vf_nd_u8(); int s = vf_nd_i32(), a = vf_nd_i32();
+        vf_assume(op < HOPS);
+        g_expect_empty = false; vf_log_reset();
+        switch (op) {
+        case 0: k_ipf_assign_tv1(f[0], s); m[0] = M{3, s}; break;                       // a = small trivially copyable callable
+        case 1: by_kind(f[0], 2 + 2 * WMAX, s, 0); m[0] = M{2 + 2 * WMAX, s}; break;    // a = non-trivial callable filling the capacity
+        case 2: k_ipf_copy_assign(f[1], f[0]); m[1] = m[0]; break;                      // b = a
+        case 3: k_ipf_move_assign(f[0], f[1]); m[0] = m[1]; m[1] = M{0, 0}; break;      // a = move(b)
+        case 4: k_ipf_swap(f[0], f[1]); { M x = m[0]; m[0] = m[1]; m[1] = x; } break;   // a.swap(b)
+        case 5: k_ipf_reset(f[0]); m[0] = M{0, 0}; break;                               // a = nullptr
+        case 6: by_kind(f[1], 2 + WMAX, s, 0); m[1] = M{2 + WMAX, s}; break;            // b = trivially copyable callable filling the capacity
+        case 7: k_ipf_assign_nt1(f[1], s); m[1] = M{3 + WMAX, s}; break;                // b = small non-trivial callable
+        case 8: check_call(f[0], m[0], a); break;                                       // a(x)
+        default: check_call(f[1], m[1], a); break;                                      // b(x)
+        }
+        check_state(f, m);
+    }
+    if (is_nt(m[0].kind) && is_nt(m[1].kind)) vf_witness("history ends with both wrappers holding a non-trivial target");
+    if (m[0].kind == 0 && m[1].kind != 0) vf_witness("history ends with a empty and b holding a target");
     finish<true>(f, m);
 }
 Q q_ipf_misc()
